@@ -380,6 +380,10 @@ def run_glue(klass, tier):
                 with warnings.catch_warnings():
                     warnings.simplefilter('ignore')
                     obj._derivative(x, args, kwds)
+                    n_first = len(rec.extra)
+                    # history variant: the same object is called again with other extra arguments
+                    args2, kwds2 = ('A2', 8, 'more'), dict(key='K2', other=3)
+                    obj._derivative(x, args2, kwds2)
             except NeedsConcrete:
                 raise
             except ValueError as e:
@@ -404,7 +408,10 @@ def run_glue(klass, tier):
             # drop the evaluation at x itself (allowed for every method)
             check_points(tag, calls, xs, hs, kind if kind != 'symmetric' else 'symmetric', mc, maxnz, pre)
             solve.fact('%s:args-forwarded-unchanged' % tag,
-                       all(a == args and k == kwds for a, k in rec.extra) and len(rec.extra) > 0)
+                       all(a == args and k == kwds for a, k in rec.extra[:n_first]) and n_first > 0)
+            solve.fact('%s:second-call-forwards-its-own-args' % tag,
+                       all(a == args2 and k == kwds2 for a, k in rec.extra[n_first:]) and len(rec.extra) == 2 * n_first,
+                       note=str((n_first, len(rec.extra), rec.extra[n_first:][:1])))
             solve.fact('%s:generator-gets-(method,n,method_order)' % tag,
                        gen.args == (method, obj.n, obj.method_order), note=str(gen.args))
             info['glue'].append('%s %s calls=%d' % (klass, tag, len(calls)))
